@@ -4,9 +4,7 @@ size_t g_prefix;              /* ghost: sum of WIDTH over the entries processed 
 #include "gen.c"
 
 unsigned int World_properties_output_size__contract(struct World *this_, struct vec_arr_uint_3 *properties)
-__CPROVER_requires(__CPROVER_is_fresh(this_, sizeof(*this_)))
-__CPROVER_requires(__CPROVER_is_fresh(properties, sizeof(*properties)))
-__CPROVER_requires(properties->n <= MAXP && __CPROVER_is_fresh(properties->data, sizeof(struct arr_uint_3) * MAXP))
+__CPROVER_requires(properties->n <= MAXP)      /* typed objects are built by the harness */
 __CPROVER_requires(wb_thrown == 0 && g_prefix == 0)
 __CPROVER_assigns(wb_thrown, g_prefix)        /* frame: the world and the request are not written */
 __CPROVER_ensures(wb_thrown || __CPROVER_return_value == (g_prefix & 0xFFFFFFFFul))
@@ -15,7 +13,7 @@ __CPROVER_ensures((!wb_thrown && g_prefix <= UINT_MAX) ==> __CPROVER_return_valu
 
 void h_World_properties_output_size(void)
 {
-  struct World *w; struct vec_arr_uint_3 *p;
-  World_properties_output_size(w, p);
+  struct World w; struct vec_arr_uint_3 pv;
+  World_properties_output_size(&w, &pv);
   REACHABLE();
 }
